@@ -76,15 +76,24 @@ example : print shopA = "/orbitdb/@shop.kv.me/shop" := by decide
 theorem parse_shop : parse atCid "/orbitdb/@shop.kv.me/shop" = some shopA :=
   parse_of_printed (by decide) (by decide)
 
+theorem shop_named : named atCid shopA ⟨"shop", "kv", ["me"]⟩ = true := by
+  unfold named
+  have : joinAddr shopA.root "shop" = "/orbitdb/@shop.kv.me/shop" := by decide
+  simp only [this, parse_shop]
+  decide
+
+theorem named_s1 : Named atCid s1 shopA := named_of_fetch (m0 := ⟨"shop", "kv", ["me"]⟩) (by decide) shop_named
+theorem named_s2 : Named atCid s2 shopA := named_of_fetch (m0 := ⟨"shop", "kv", ["me"]⟩) (by decide) shop_named
+
 /-- same instance, local-only or not, with misleading options: the recorded type and write list -/
 example : openDB atCid tH s1 "/orbitdb/@shop.kv.me/shop" true false "log" false =
     (.ok (shopA, "kv", ["me"]), s1) := by
   show «open» atCid tH s1 "/orbitdb/@shop.kv.me/shop" _ = _
-  rw [open_valid _ parse_shop]; decide
+  rw [open_valid _ parse_shop named_s1]; decide
 example : openDB atCid tH s1 "/orbitdb/@shop.kv.me/shop" false true "" true =
     (.ok (shopA, "kv", ["me"]), s1) := by
   show «open» atCid tH s1 "/orbitdb/@shop.kv.me/shop" _ = _
-  rw [open_valid _ parse_shop]; decide
+  rw [open_valid _ parse_shop named_s1]; decide
 
 /-- `create_then_open_same` applies to the run above -/
 example : ∀ o', «open» atCid tH s1 (print shopA) o' = (.ok (shopA, "kv", ["me"]), s1) :=
@@ -96,33 +105,45 @@ successful plain one (U1) -/
 example : openDB atCid tH s2 "/orbitdb/@shop.kv.me/shop" false false "" false =
     (.ok (shopA, "kv", ["me"]), s2) := by
   show «open» atCid tH s2 "/orbitdb/@shop.kv.me/shop" _ = _
-  rw [open_valid _ parse_shop]; decide
+  rw [open_valid _ parse_shop named_s2]; decide
 example : openDB atCid tH s2 "/orbitdb/@shop.kv.me/shop" true false "" false =
     (.error .notLocal, s2) := by
   show «open» atCid tH s2 "/orbitdb/@shop.kv.me/shop" _ = _
-  rw [open_valid _ parse_shop]; decide
+  rw [open_valid _ parse_shop named_s2]; decide
 example : openDB atCid tH (openDB atCid tH s2 "/orbitdb/@shop.kv.me/shop" false false "" false).2
     "/orbitdb/@shop.kv.me/shop" true false "" false = (.error .notLocal, s2) := by
   have h1 : (openDB atCid tH s2 "/orbitdb/@shop.kv.me/shop" false false "" false).2 = s2 :=
     open_keeps_state s2 _ _ shopA parse_shop
   rw [h1]
   show «open» atCid tH s2 "/orbitdb/@shop.kv.me/shop" _ = _
-  rw [open_valid _ parse_shop]; decide
+  rw [open_valid _ parse_shop named_s2]; decide
 
 /-- a manifest nobody serves -/
 example : openDB atCid tH s0 "/orbitdb/@shop.kv.me/shop" false false "" false =
     (.error .noManifest, s0) := by
   show «open» atCid tH s0 "/orbitdb/@shop.kv.me/shop" _ = _
-  rw [open_valid _ parse_shop]; decide
+  rw [open_valid _ parse_shop (named_of_no_manifest (by decide))]; decide
 /-- a manifest of a type this instance has not registered (`s2` knows `kv` only) -/
 example : («open» atCid tH { s2 with net := [("@x", ⟨"x", "log", []⟩)] } "/orbitdb/@x/x" {}).1 =
     .error .unsupported := by
-  rw [open_valid (a := ⟨"@x", "x"⟩) _ (parse_of_printed (by decide) (by decide))]; decide
-/-- the path of the address is not compared with the manifest's name (U7) -/
-example : (openDB atCid tH s2 "/orbitdb/@shop.kv.me/anything/else" false false "" false).1 =
-    .ok (⟨"@shop.kv.me", "anything/else"⟩, "kv", ["me"]) := by
-  show («open» atCid tH s2 "/orbitdb/@shop.kv.me/anything/else" _).1 = _
-  rw [open_valid (a := ⟨"@shop.kv.me", "anything/else"⟩) _ (parse_of_printed (by decide) (by decide))]; decide
+  have hpx : parse atCid "/orbitdb/@x/x" = some ⟨"@x", "x"⟩ := parse_of_printed (by decide) (by decide)
+  rw [open_valid (a := ⟨"@x", "x"⟩) _ hpx
+    (named_of_fetch (m0 := ⟨"x", "log", []⟩) (by decide) (by
+      unfold named
+      have : joinAddr (⟨"@x", "x"⟩ : Addr).root "x" = "/orbitdb/@x/x" := by decide
+      simp only [this, hpx]
+      decide))]; decide
+/-- **the path of the address is compared with the manifest's name** (finding F52; it was not: U7):
+`/orbitdb/<root of "shop">/anything/else` is refused, it names no database -/
+example : openDB atCid tH s2 "/orbitdb/@shop.kv.me/anything/else" false false "" false =
+    (.error .nameMismatch, s2) := by
+  show «open» atCid tH s2 "/orbitdb/@shop.kv.me/anything/else" _ = _
+  exact open_misnamed_refused s2 _ _ ⟨"@shop.kv.me", "anything/else"⟩ ⟨"shop", "kv", ["me"]⟩
+    (parse_of_printed (by decide) (by decide)) (by decide) (by
+      unfold named
+      have : joinAddr (⟨"@shop.kv.me", "anything/else"⟩ : Addr).root "shop" = "/orbitdb/@shop.kv.me/shop" := by decide
+      simp only [this, parse_shop]
+      decide) rfl
 /-- **an address that climbs out of its root is refused as an address** (finding F28): it prints as
 another database's address -/
 example : parse atCid "/orbitdb/@shop.kv.me/../@other/x" = none := by
